@@ -189,6 +189,10 @@ type World struct {
 	// SlowVerify > 0 makes the injected signature verifier of new nodes sleep up to that long per call,
 	// which widens the window between the pre-lock checks and the locked section of admission.
 	SlowVerify time.Duration
+	// SlowRepeat > 0: for digests marked with SlowAfterFirst the injected verifier answers the first verification at
+	// once and sleeps that long on every later one (duplicates are slow, first copies and other vertices are quick)
+	SlowRepeat    time.Duration
+	slowVerifiers []*slowVerifier
 	// TruncatedOnce is set after the first truncation of the scenario
 	TruncatedOnce bool
 	// TruncateAt, when set, is the Config.Truncate of new nodes (default: huge, the background truncation never triggers)
@@ -202,17 +206,45 @@ type World struct {
 }
 
 type slowVerifier struct {
-	max time.Duration
-	n   atomic.Uint64
+	max    time.Duration
+	repeat time.Duration
+	n      atomic.Uint64
+	mu     sync.Mutex
+	seen   map[[32]byte]bool
 }
 
 func (s *slowVerifier) Verify(message, signature []byte, hash [32]byte, address string) error {
 	k := s.n.Add(1)
-	d := time.Duration((k * 2654435761) % uint64(s.max+1))
+	d := time.Duration(0)
+	if s.max > 0 {
+		d = time.Duration((k * 2654435761) % uint64(s.max+1))
+	}
+	if s.repeat > 0 {
+		// the first verification of a marked digest is quick, every later one (a duplicate copy, or the vertex
+		// validated again as a tip) takes long: duplicates reach the locked section late
+		s.mu.Lock()
+		if first, marked := s.seen[hash]; marked {
+			if !first {
+				d += s.repeat
+			}
+			s.seen[hash] = false
+		}
+		s.mu.Unlock()
+	}
 	if d > 0 {
 		time.Sleep(d)
 	}
 	return wallet.NewVerifier().Verify(message, signature, hash, address)
+}
+
+// SlowAfterFirst marks a digest: the injected verifier of every node created with SlowRepeat > 0 answers its first
+// verification at once and sleeps SlowRepeat on every later one.
+func (w *World) SlowAfterFirst(h [32]byte) {
+	for _, v := range w.slowVerifiers {
+		v.mu.Lock()
+		v.seen[h] = true
+		v.mu.Unlock()
+	}
 }
 
 func NewWorld(r *rand.Rand, res *core.Result, report []string, oracles int, desc string) *World {
@@ -306,8 +338,10 @@ func (w *World) newBook(a *Actor) (*accountant.AccountingBook, context.CancelFun
 	var ver interface {
 		Verify(message, signature []byte, hash [32]byte, address string) error
 	} = wallet.NewVerifier()
-	if w.SlowVerify > 0 {
-		ver = &slowVerifier{max: w.SlowVerify}
+	if w.SlowVerify > 0 || w.SlowRepeat > 0 {
+		sv := &slowVerifier{max: w.SlowVerify, repeat: w.SlowRepeat, seen: map[[32]byte]bool{}}
+		w.slowVerifiers = append(w.slowVerifiers, sv)
+		ver = sv
 	}
 	trunc := uint64(1 << 50)
 	if w.TruncateAt > 0 {
